@@ -458,6 +458,7 @@ class RecocoIOLoop (Task):
           worker._do_recv(self)
 
         for worker in wlist:
+          if worker.closed: continue # e.g., its recv just failed
           worker._do_send(self)
 
       except GeneratorExit:
